@@ -5,11 +5,13 @@
 From TL Require Import Lib.Base Lib.GenTypes Model.RustSafetyTypes Model.RustSafetySpec Gen.RustSafetyGen
      Model.RustSafety Proofs.RustSafetyWalk Proofs.RustSafetyCtx.
 
-Lemma line_ok q sl ml : negb (q_chain_start_line q) || (sl =? ml) = true -> report_line q 1 sl ml = S ml.
+Lemma row_ok q sl ml : negb (q_chain_start_line q) || (sl =? ml) = true -> report_row q sl ml = ml.
 Proof.
-  unfold report_line. destruct (q_chain_start_line q); cbn [negb orb]; intros H; [|lia].
-  apply Nat.eqb_eq in H. subst. lia.
+  unfold report_row. destruct (q_chain_start_line q); cbn [negb orb]; intros H; [|reflexivity].
+  now apply Nat.eqb_eq in H.
 Qed.
+Lemma line_ok q sl ml : negb (q_chain_start_line q) || (sl =? ml) = true -> report_line q 1 sl ml = S ml.
+Proof. intros H. unfold report_line. rewrite (row_ok q sl ml H). lia. Qed.
 
 (* ------------------------------------------------------------------ unwrap-abuse *)
 Lemma unwrap_skip_eq o t name :
@@ -25,16 +27,18 @@ Qed.
 Lemma unwrap_methods_eq name : smem name unwrap_methods = String.eqb name "unwrap" || String.eqb name "expect".
 Proof. unfold unwrap_methods. cbn [smem]. destruct (String.eqb name "unwrap"), (String.eqb name "expect"); reflexivity. Qed.
 
-Lemma emit_unwrap_eq q g o anc c k cs : R q g anc c -> gok LUnwrap q g k cs = true ->
-  emit_unwrap q o anc k cs = spec_unwrap o c k cs.
+Lemma emit_unwrap_eq q g ls o anc c k cs : R q g anc c -> gok LUnwrap q g k cs = true ->
+  emit_unwrap q ls o anc k cs = spec_unwrap ls o c k cs.
 Proof.
   intros (RT & _) G. destruct k as [pre|pre a nm| |b| |x| |nm| |sl sc ml name|sl sc p|p| |lk pat| | |nm]; try reflexivity.
   unfold gok in G. apply andb_true_iff in G as [_ G].
   unfold emit_unwrap, spec_unwrap. rewrite ty_unwrap_call. cbn [is_callk andb].
   rewrite unwrap_methods_eq, unwrap_skip_eq, RT.
-  change unwrap_line_offset with 1. change unwrap_col_offset with 0. rewrite (line_ok q sl ml G), Nat.add_0_r.
+  change unwrap_line_offset with 1. change unwrap_col_offset with 0. rewrite (line_ok q sl ml G), (row_ok q sl ml G), Nat.add_0_r.
   change unwrap_builder_method with "unwrap". change unwrap_rule_then with "unwrap-abuse.unwrap-call".
   change unwrap_rule_else with "unwrap-abuse.expect-call".
+  change unwrap_msg_then with ".unwrap() call may panic at runtime: ". change unwrap_msg_else with ".expect() call may panic at runtime: ".
+  change (context_of ls ml) with (quoted ls ml).
   destruct (String.eqb_spec name "unwrap") as [->|NU].
   - cbn [String.eqb Ascii.eqb Bool.eqb andb orb]. rewrite orb_false_r.
     destruct (in_test c && opt o "allow_in_tests" true); reflexivity.
@@ -46,7 +50,7 @@ Qed.
 Lemma smem2_false name : smem name ["unwrap"; "expect"] = false -> String.eqb name "unwrap" = false /\ String.eqb name "expect" = false.
 Proof. cbn [smem]. destruct (String.eqb name "unwrap"), (String.eqb name "expect"); intros; try discriminate; split; reflexivity. Qed.
 
-Lemma spec_unwrap_silent q g o c k cs : g_macro g = true -> gok LUnwrap q g k cs = true -> spec_unwrap o c k cs = [].
+Lemma spec_unwrap_silent q g ls o c k cs : g_macro g = true -> gok LUnwrap q g k cs = true -> spec_unwrap ls o c k cs = [].
 Proof.
   intros M G. unfold gok in G. apply andb_true_iff in G as [G _]. rewrite M in G. cbn [negb orb] in G.
   apply negb_true_iff in G.
@@ -96,10 +100,10 @@ Qed.
 Definition clone_switches_on (o : options) : bool :=
   opt o "detect_clone_chain" true && opt o "detect_clone_in_loop" true && opt o "detect_unnecessary_clone" true.
 
-Lemma emit_clone_eq q g o anc c k cs :
+Lemma emit_clone_eq q g ls o anc c k cs :
   q_clone_first_pattern q = false \/ clone_switches_on o = true ->
   R q g anc c -> gok LClone q g k cs = true ->
-  emit_clone q o anc k cs = spec_clone o c k cs.
+  emit_clone q ls o anc k cs = spec_clone ls o c k cs.
 Proof.
   intros HQ HR G. destruct k as [pre|pre a nm| |b| |x| |nm| |sl sc ml name|sl sc p|p| |lk pat| | |nm]; try reflexivity.
   unfold gok in G. apply andb_true_iff in G as [_ G]. apply andb_true_iff in G as [GL GF].
@@ -109,14 +113,17 @@ Proof.
   rewrite classify_clone_eq, clone_off_chain, clone_off_loop, clone_off_unn, !negb_involutive.
   rewrite chained_eq, (unnecessary_eq q g anc c cs HR).
   destruct HR as (RT & RL & _). rewrite (RL GF), RT.
-  change clone_line_offset with 1. change clone_col_offset with 0. rewrite (line_ok q sl ml GL), Nat.add_0_r.
+  change clone_line_offset with 1. change clone_col_offset with 0. rewrite (line_ok q sl ml GL), (row_ok q sl ml GL), Nat.add_0_r.
+  change (context_of ls ml) with (quoted ls ml).
   set (ch := match cs with r :: _ => is_clone_call r | [] => false end).
   set (un := match in_let c, cs with Some l, N (KId y) _ :: _ => negb (smem y l) | _, _ => false end).
   set (tt := in_test c && opt o "allow_in_tests" true).
   assert (K : forall pat, (if skipped clone_skip_rules clone_cfg o (in_test c) name (pattern_off clone_pattern_keys clone_cfg o pat)
-                          then [] else [(rule_of clone_pattern_rules clone_default_rule pat, S ml, sc)]) =
+                          then [] else [(rule_of clone_pattern_rules clone_default_rule pat, S ml, sc,
+                                         (rule_of clone_pattern_msgs clone_default_msg pat ++ quoted ls ml)%string)]) =
                          (if tt || pattern_off clone_pattern_keys clone_cfg o pat then []
-                          else [(rule_of clone_pattern_rules clone_default_rule pat, S ml, sc)])).
+                          else [(rule_of clone_pattern_rules clone_default_rule pat, S ml, sc,
+                                 (rule_of clone_pattern_msgs clone_default_msg pat ++ quoted ls ml)%string)])).
   { intros pat0. now rewrite clone_skip_eq. }
   destruct HQ as [HQ|HS].
   - rewrite HQ. cbn [orb].
@@ -141,7 +148,7 @@ Proof.
     destruct tt; reflexivity.
 Qed.
 
-Lemma spec_clone_silent q g o c k cs : g_macro g = true -> gok LClone q g k cs = true -> spec_clone o c k cs = [].
+Lemma spec_clone_silent q g ls o c k cs : g_macro g = true -> gok LClone q g k cs = true -> spec_clone ls o c k cs = [].
 Proof.
   intros M G. unfold gok in G. apply andb_true_iff in G as [G _]. rewrite M in G. cbn [negb orb] in G.
   apply negb_true_iff in G.
@@ -169,8 +176,9 @@ Qed.
 
 Lemma blocking_class_facts o cl : cl = "fs-in-async" \/ cl = "sleep-in-async" \/ cl = "net-in-async" ->
   rule_of blocking_pattern_rules blocking_default_rule cl = blocking_rule cl /\
-  pattern_off blocking_pattern_keys blocking_cfg o cl = negb (opt o (blocking_switch cl) true).
-Proof. intros [->|[->| ->]]; split; reflexivity. Qed.
+  pattern_off blocking_pattern_keys blocking_cfg o cl = negb (opt o (blocking_switch cl) true) /\
+  forall path, (rule_of blocking_pattern_msgs blocking_default_msg cl ++ path_text path)%string = blocking_message cl path.
+Proof. intros [->|[->| ->]]; repeat split; reflexivity. Qed.
 
 Lemma ostr_eqb_eq a b : ostr_eqb a b = true -> a = b.
 Proof.
@@ -178,26 +186,29 @@ Proof.
   intros H. apply String.eqb_eq in H. now subst.
 Qed.
 
-Lemma emit_blocking_eq q g o anc c k cs : R q g anc c -> gok LBlocking q g k cs = true ->
-  emit_blocking q o anc k cs = spec_blocking o c k cs.
+Lemma emit_blocking_eq q g ls o anc c k cs : R q g anc c -> gok LBlocking q g k cs = true ->
+  emit_blocking q ls o anc k cs = spec_blocking ls o c k cs.
 Proof.
   intros (RT & _ & RA & RW & _) G. destruct k as [pre|pre a nm| |b| |x| |nm| |sl sc ml name|sl sc path|p| |lk pat| | |nm]; try reflexivity.
-  unfold gok in G. apply andb_true_iff in G as [_ G]. apply ostr_eqb_eq in G.
-  unfold emit_blocking, spec_blocking. rewrite ty_blocking_call. cbn [is_callk andb]. rewrite RA, RW, RT, G.
+  unfold gok in G. apply andb_true_iff in G as [_ G]. apply andb_true_iff in G as [G GM]. apply andb_true_iff in G as [G GW].
+  apply ostr_eqb_eq in G.
+  unfold emit_blocking, spec_blocking. rewrite ty_blocking_call. cbn [is_callk andb]. rewrite RA, RT, G.
   change blocking_line_offset with 1. change blocking_col_offset with 0. rewrite Nat.add_0_r, Nat.add_1_r.
   destruct (in_async c); [|reflexivity]. cbn [andb].
   destruct (List.length path <? 2) eqn:EL.
   { rewrite (short_path_unclassified path EL). now destruct (negb (in_wrap c) && negb (in_test c && opt o "allow_in_tests" true)). }
+  cbn [risky] in GW, GM.
   destruct (classify_path spec_blocking_classes path) as [cl|] eqn:EC.
-  - destruct (blocking_class_facts o cl (classify_names path cl EC)) as [E1 E2].
-    rewrite blocking_skip_eq, E1, E2.
+  - cbn [negb] in GW, GM. rewrite orb_false_r in GW, GM. apply negb_true_iff in GW, GM. rewrite (RW GW), GM.
+    destruct (blocking_class_facts o cl (classify_names path cl EC)) as (E1 & E2 & E3).
+    rewrite blocking_skip_eq, E1, E2, E3.
     destruct (in_wrap c); [reflexivity|]. cbn [negb andb].
     destruct (in_test c && opt o "allow_in_tests" true); [reflexivity|]. cbn [negb orb].
     destruct (opt o (blocking_switch cl) true); reflexivity.
   - now destruct (negb (in_wrap c) && negb (in_test c && opt o "allow_in_tests" true)).
 Qed.
 
-Lemma spec_blocking_silent q g o c k cs : g_macro g = true -> gok LBlocking q g k cs = true -> spec_blocking o c k cs = [].
+Lemma spec_blocking_silent q g ls o c k cs : g_macro g = true -> gok LBlocking q g k cs = true -> spec_blocking ls o c k cs = [].
 Proof.
   intros M G. unfold gok in G. apply andb_true_iff in G as [G _]. rewrite M in G. cbn [negb orb] in G.
   apply negb_true_iff in G.
